@@ -135,9 +135,15 @@ CHECKS["C07"] = (
     "pre-commit actions failing. Asserted: each store call returns an error iff one of its steps was rejected; the transaction returns an error iff anything "
     "failed; then no entity event, commit action or tx-complete listener ran and the stored state equals the pre-state; otherwise the state is the model's. "
     "Second harness: a manager (parent + child data) referenced by a team through a restricting fk index on the CHILD store: the delete, through either store, "
-    "is refused iff referenced, reaches the caller, changes nothing and fires no event.",
+    "is refused iff referenced, reaches the caller, changes nothing and fires no event. Storage errors: (i) a unique name / nick of 32768 vs 32769 bytes "
+    "(bbolt's key limit) arriving by create or update after an earlier successful create in the same transaction; (ii) from a fixed population, each of 13 store "
+    "operations (create / update / delete through parent and child store, patch, AddLinks / SetLinks / RemoveLinks, Increment / Decrement / SetLinkCount) with the "
+    "k-th Bucket.Put of the transaction failing, k symbolic in 1..14 (quick) / 1..30 (thorough): if the fault was delivered the operation and the transaction "
+    "return an error, the database is as before and no event fires.",
     BASE_NOTE + "'Database left exactly as before' rests on bbolt's rollback, which the mbolt model has by construction (assumed of bbolt); what is checked "
-    "is that the error which triggers it always reaches the caller. Storage-level failures of bbolt calls are not injected (no native replay possible).",
+    "is that the error which triggers it always reaches the caller. Storage faults are injected at Bucket.Put only: natively through the failpoint bbolt's "
+    "authors placed there (gofail marker beforeBucketPut, enabled by a build overlay of bbolt's bucket.go), in the model at the same position; failing Delete / "
+    "CreateBucket / commit are outside (bbolt offers no failpoint there, so a model-only fault could not be replayed).",
     "6/C07")
 CHECKS["C08"] = (
     "Same machinery with 2 (quick) / 3 (thorough) operations per transaction and every registration style on parent and child store (typed listener, function, "
